@@ -94,7 +94,7 @@ class CallSite:
         return '<call %s>' % s.key
 
 
-GENERIC_PARAM_RE = re.compile(r'^(?:[A-Z]\w?|__H|Self)$')
+GENERIC_PARAM_RE = re.compile(r'^(?:[A-Z]\d?|__H|Self)$')
 
 
 def parse_callee(raw):
@@ -122,7 +122,7 @@ def parse_callee(raw):
                 if '<' in sg: cs.generics.append(sg[sg.index('<') + 1: sg.rindex('>')])
             cs.self_short = short_type(cs.self_ty)
             st = cs.self_ty
-            cs.tparam = bool(GENERIC_PARAM_RE.match(st)) or st.startswith('<') or bool(re.match(r'^&(mut )?[A-Z]\w?$', st))
+            cs.tparam = bool(GENERIC_PARAM_RE.match(st)) or st.startswith('<') or bool(re.match(r'^&(mut )?[A-Z]\d?$', st))
             cs.key = '<%s as %s>::%s' % (cs.self_short, cs.trait, cs.method)
             return cs
         # `<Type>::method` (inherent on complex type)
@@ -174,6 +174,8 @@ class Program:
                 info = s.src.impl_at(m.group(1), int(m.group(2)), int(m.group(3)))
                 if info:
                     td, tr, trargs, tytext = info
+                    if not isinstance(td, TypeDef) and td in s.src.alias_targets:
+                        td = s.src.alias_targets[td]
                     tyk = td.full if isinstance(td, TypeDef) else short_type(strip_lifetimes(td))
                     s.impl_methods.setdefault((tyk, tr, m.group(4)), []).append((b, trargs, tytext))
                     b.impl_span = (tyk, tr)
@@ -193,6 +195,16 @@ class Program:
             if t2 == t: break
             t = t2
         return t
+
+    def src_aliases(s):
+        a = getattr(s, '_src_aliases', None)
+        if a is None:
+            a = {}
+            for rel, src in s.src.files.items():
+                for m in re.finditer(r'(?m)^(?:pub(?:\([^)]*\))?\s+)?type\s+(\w+)\s*=\s*([^;]+);', src):
+                    if '<' not in m.group(1): a.setdefault(m.group(1), m.group(2).strip())
+            s._src_aliases = a
+        return a
 
     # ---------- type names
     def canon_type(s, printed, from_file=None):
